@@ -63,6 +63,8 @@ def make(i, base_seed, tier):
         rng = stream(seed, "clamp")
         ops = []
         for op in scn["ops"]:
+            if op["op"] == "reconf":
+                continue      # (rf24_lite has no crc attribute: its CRC length is fixed)
             if "bufs" in op:
                 # lite (either end transmits after a `turn`): 1..32 bytes in both modes
                 op["bufs"] = [b if 2 <= len(b) <= 64 else "%02x" % rng.getrandbits(8) * rng.randint(1, 32) for b in op["bufs"]]
